@@ -12,7 +12,7 @@ use vh::{run_main, Ctx, Local};
 
 fn pool() -> Vec<String> {
     let mut v = vec![];
-    let spec: [(&str, &[&str]); 17] = [
+    let spec: [(&str, &[&str]); 19] = [
         ("a", &["", ":5", ":10", ":-1", ":x", ":", ":0", ":100", ":-2147483648", ":2147483647"]),
         ("b", &["", ":5", ":10", ":-5", ":9", ":-2147483647", ":2147483648"]),
         ("a-alias", &["", ":10"]),
@@ -21,6 +21,8 @@ fn pool() -> Vec<String> {
         ("fn", &["", ":10"]),
         ("tpl", &["", ":10"]),
         ("bin", &[":6"]),
+        ("corrupt", &[":12"]),
+        ("corrupt-alias", &[":13"]),
         ("vid", &[":11"]),
         // names that contain the priority separator: loaded (`ns:a`) and not loaded (`zzz:1`)
         ("ns:a", &["", ":7"]),
